@@ -91,7 +91,12 @@ def worker_init():
         w = sim.cur()
         fut = orig(self, process, *a, **kw)
         if w is not None:
-            rec = {'t': w.clock.now, 'done': False, 'ret': None}
+            gtk = kw.get('graceful_timeout')
+            if gtk is None and len(a) > 1:
+                gtk = a[1]
+            if gtk is None:
+                gtk = self.graceful_timeout
+            rec = {'t': w.clock.now, 'done': False, 'ret': None, 'gt': gtk}
             w.kills.setdefault(process.pid, []).append(rec)
 
             def fin(f, rec=rec):
@@ -176,7 +181,7 @@ def bound(w, cmd, props):
         if props.get('sequential'):
             return sum(max(len(x.processes), x.numprocesses) * (kphase(x.graceful_timeout, lat) + x.warmup_delay)
                        for x in ws) + S + K + base
-        return S + K + base
+        return S + K + K + base        # surplus removal, then whatever is left of the old generation
     if cmd == 'incr':
         nb = props.get('nb', 1)
         return (nb if isinstance(nb, (int, float)) else 1) * max([x.warmup_delay for x in ws] + [0]) + S + K + base
@@ -307,6 +312,12 @@ def _history(w, h, res):
             res.obs['waiting_replies'] += 1
             if body.get('status') == 'ok':
                 lat = t - t0
+                # kills with their own timeout that overlap this operation (in flight before it, or arriving
+                # during it) have to finish first: their graceful_timeout is one of "the applicable" ones
+                over = [r['gt'] for recs in w.kills.values() for r in recs
+                        if r['t'] <= t and r.get('t_done', 1e18) >= t0 and r['gt'] is not None]
+                if over:
+                    B = B + kphase(max(over), w.kernel.kill_latency)
                 res.hist['waiting_latency_over_bound_pct'][int(100 * lat / B) // 10 * 10] += 1
                 if lat > B:
                     res.violation('C05/late-reply:' + cmd, '%s %s answered after %.2fs, bound B(op)=%.2fs'
